@@ -1,6 +1,8 @@
 """Documented option values per estimator (the C03 configuration product)."""
 import itertools
 
+import numpy as np
+
 
 def _ncomp(d):
   return [None] + list(range(1, d + 1))
@@ -108,3 +110,44 @@ def light(name, d, n_classes):
       'SCML_Supervised': [{}, {'basis': 'triplet_diffs'}],
   }
   return v[name]
+
+
+def random_hyper(name, d, n_classes, rng):
+  """Numeric hyper-parameters drawn inside their documented ranges (on top
+  of the fast iteration budgets)."""
+  lu = lambda a, b: float(10.0 ** rng.uniform(np.log10(a), np.log10(b)))  # noqa
+  p = {}
+  if name == 'LMNN':
+    p = {'n_neighbors': int(rng.randint(1, 4)),
+         'regularization': float(rng.uniform(0.05, 0.95)),
+         'learn_rate': lu(1e-8, 1e-2), 'min_iter': int(rng.randint(1, 8)),
+         'max_iter': int(rng.randint(3, 25)),
+         'convergence_tol': lu(1e-6, 1e-1)}
+  elif name in ('NCA', 'MLKR'):
+    p = {'max_iter': int(rng.randint(1, 15)),
+         'tol': [None, lu(1e-8, 1e-2)][int(rng.randint(2))]}
+  elif name in ('ITML', 'ITML_Supervised'):
+    p = {'gamma': lu(1e-3, 1e3), 'max_iter': int(rng.randint(1, 80)),
+         'tol': lu(1e-8, 1e-1)}
+  elif name in ('MMC', 'MMC_Supervised'):
+    p = {'max_iter': int(rng.randint(1, 12)), 'tol': lu(1e-8, 1e-1),
+         'max_proj': int(rng.choice([500, 2000, 10000]))}
+  elif name in ('SDML', 'SDML_Supervised'):
+    p = {'sparsity_param': lu(1e-4, 1.0)}
+  elif name in ('LSML', 'LSML_Supervised'):
+    p = {'tol': lu(1e-6, 1e-1), 'max_iter': int(rng.randint(1, 40))}
+  elif name in ('SCML', 'SCML_Supervised'):
+    mi = int(rng.randint(10, 200))
+    p = {'beta': lu(1e-6, 1.0), 'gamma': lu(1e-4, 10.0), 'max_iter': mi,
+         'output_iter': int(rng.randint(1, mi + 1)),
+         'batch_size': int(rng.randint(1, 12)),
+         'n_basis': int(rng.randint(d, 6 * d))}
+    if name == 'SCML_Supervised':
+      p.update(k_genuine=int(rng.randint(1, 4)),
+               k_impostor=int(rng.randint(1, 8)))
+  elif name == 'LFDA':
+    p = {'k': [None, int(rng.randint(1, d + 3))][int(rng.randint(2))]}
+  if name in ('ITML_Supervised', 'MMC_Supervised', 'SDML_Supervised',
+              'LSML_Supervised'):
+    p['n_constraints'] = int(rng.randint(5, 120))
+  return p
